@@ -10,6 +10,10 @@ exit 3 with 'translator-shape-changed: ...'):
   src/mirrors.rs
     * `channel::<Bytes>(N)`  (exactly one)            -> mirror_chan_capacity : nat
     * `channel::<()>(M)`     (exactly one)            -> mirror_exit_capacity : nat
+    * no blocking call (thread::sleep, block_on, ...) in the file; the task's write to the mirror is
+      `match server.send(..).await { Ok / Err => mark_bad }` with no timeout around it; create_pool gives the
+      mirror's ServerPool `None` for plugins
+           -> mirror_task_has_no_blocking_call, mirror_write_whole_or_marked_bad, mirror_pool_has_no_plugins : bool
     * `pub fn send(&mut self, bytes: &BytesMut)` and `pub fn disconnect(&mut self)` of
       MirroringManager are NOT `async` and contain no `.await` (a plain fn cannot wait),
       `send` hands the buffer over with `try_send` only, and its early return is guarded by
@@ -110,6 +114,25 @@ def main():
         raise Shape("mirror task: the pool.get() error arm is no longer `continue`")
     if not re.search(r"\.max_size\(\s*1\s*\)", ms):
         raise Shape("mirror pool max_size(1) changed")
+    # a mirror task that waits must not hold a runtime worker (c20_client_path_independent assumes mirror-task steps
+    # take nothing from the client path): no blocking call anywhere in mirrors.rs
+    for pat in (r"thread::sleep", r"\bblock_on\b", r"block_in_place", r"std::sync::mpsc", r"\.recv_timeout\(", r"\.blocking_"):
+        if re.search(pat, ms):
+            raise Shape("a blocking call (%s) appeared in mirrors.rs" % pat)
+    # the write to the mirror is awaited to its end or the connection is marked bad (Deliver / FailSend of the model):
+    # no timeout or select around it that could abandon a half-written buffer on a connection that stays in use
+    if not re.search(r"match\s+server\.send\(&BytesMut::from\(&bytes\[\.\.\]\)\)\.await\s*\{\s*Ok\(_\)\s*=>.*?Err\(err\)\s*=>\s*\{\s*server\.mark_bad\(", body, re.S):
+        raise Shape("mirror task: `match server.send(..).await { Ok(_) => .., Err(err) => { server.mark_bad(..` changed")
+    if re.search(r"timeout\s*\(", body):
+        raise Shape("mirror task: a timeout appeared inside the task loop")
+    # the mirror's own connections run nothing of their own: its ServerPool gets no plugins (no prewarmer)
+    hdr2, body2 = fn_body(ms, r"async\s+fn\s+create_pool\s*\(\s*&self\s*\)")
+    m2 = re.search(r"ServerPool::new\((.*?)\);", body2, re.S)
+    if not m2:
+        raise Shape("create_pool: ServerPool::new(..) not found")
+    args = [a.strip() for a in re.split(r",\s*\n", m2.group(1).strip().rstrip(",")) if a.strip()]
+    if len(args) != 9 or args[5] != "None":
+        raise Shape("create_pool: the plugins argument of ServerPool::new is no longer None (%s)" % (args[5] if len(args) > 5 else args))
 
     # Server::send
     hdr, body = fn_body(ss, r"pub\s+async\s+fn\s+send\s*\(\s*&mut\s+self\s*,\s*messages\s*:\s*&BytesMut\s*\)")
@@ -142,6 +165,9 @@ Definition mirror_send_is_sync : bool := true.
 Definition mirror_task_gets_conn_first : bool := true.
 Definition server_send_mirrors_first : bool := true.
 Definition mirror_attach_by_index_equality : bool := true.
+Definition mirror_task_has_no_blocking_call : bool := true.
+Definition mirror_write_whole_or_marked_bad : bool := true.
+Definition mirror_pool_has_no_plugins : bool := true.
 """ % (int(caps[0]), int(exits[0]))
     open(out, "w").write(v)
 
